@@ -2,12 +2,13 @@ from lanes import *  # noqa
 
 PROP = {
         "level": "exploration",
-        "level_text": "Seeded exploration with a reference model as oracle: thousands (quick) to hundreds of thousands (thorough) of generated well-nested programs over the real frame API - push/root/disabled/current x enter-guard/with/call/in_fn/in_future, re-entered frames, frames carried to other threads and tasks, 2-4 context instances (ThreadLocalCtxt and emit_traceparent::TraceparentCtxt<ThreadLocalCtxt>, created on different threads) reached through 14 handle types (inline and boxed ErasedFrame payloads), futures interleaved on a hand-written single-threaded executor, cancellation, migration between threads, seeded panics under catch_unwind - with with_current (and, for traceparent instances, the contributed trace ids and Traceparent::current()) compared against a stack-of-maps model plus a per-thread traceparent stack at every program point on every thread. The same monitor runs under Miri (aliasing / uninitialised / dangling / leaks / data races in the ErasedFrame union, the ManuallyDrop frame, the FrameFuture pin projection) in both tiers and under ThreadSanitizer in the thorough tier. Held-on-what-was-observed over sampled programs and OS/Miri-chosen schedules, not a proof over all programs.",
+        "level_text": "Seeded exploration with a reference model as oracle: thousands (quick) to hundreds of thousands (thorough) of generated well-nested programs over the real frame API - push/root/disabled/current x enter-guard/with/call/in_fn/in_future, re-entered frames, frames carried to other threads and tasks, 2-4 context instances (ThreadLocalCtxt and emit_traceparent::TraceparentCtxt<ThreadLocalCtxt>, created on different threads, obtained through every construction route: new(), shared() - also twice -, Default::default(), emit::setup()...init_slot(slot) runtimes on separate AmbientSlots as an application and a library would hold them, and copies / clones of another instance) reached through 14 handle types (inline and boxed ErasedFrame payloads), futures interleaved on a hand-written single-threaded executor, cancellation, migration between threads, seeded panics under catch_unwind - with with_current (and, for traceparent instances, the contributed trace ids and Traceparent::current()) compared against a stack-of-maps model plus a per-thread traceparent stack at every program point on every thread. Which instances share a model stack is decided by an identity oracle taken from the type's documentation: two instances are the same context iff one is a copy / clone of the other or both are shared(); anything else - two default()s, default() next to shared(), two setup() runtimes - is isolated (a frame entered on one is invisible through the other, a push on one does not inherit the other's properties, a root frame on one does not hide the other's). Every process also runs a fixed 24-pair matrix of construction routes (both orders, reads by value / through the slot-held runtime / a third handle, events through both runtimes) against that oracle before the generated programs. The same monitor runs under Miri (aliasing / uninitialised / dangling / leaks / data races in the ErasedFrame union, the ManuallyDrop frame, the FrameFuture pin projection) in both tiers and under ThreadSanitizer in the thorough tier. Held-on-what-was-observed over sampled programs and OS/Miri-chosen schedules, not a proof over all programs.",
         "level_note": "Trusts the stack-of-maps model in harness/mon/src/bin/c03.rs (written from the property statement), the generator's well-nestedness (out-of-stack-order exits are never produced) and the delegating Pad ctxt used to force boxed ErasedFrame payloads. Observation is through Ctxt::with_current and through the ambient properties of events emitted via an AmbientSlot-held runtime.",
         "technique": "runtime monitoring: generated frame programs interpreted against the real API in lock-step with a reference model; Miri and ThreadSanitizer builds of the same monitor",
         "assumptions": [
             "programs are well nested: every exit is in stack order (guard drop, closure return, poll return, unwinding); out-of-order exits are outside the quantifier",
             "keys are distinct within one frame; values are compared by their Display text",
+            "instance identity follows the documentation of ThreadLocalCtxt (new() = fully isolated storage, shared() = the storage of every other shared(), Copy / Clone = the same value) and of Setup (every setup() builds its own default components): Default::default() is read as new(), never as shared()",
             "thread placements and poll interleavings are sampled (seeded poll order on one executor thread, OS / Miri scheduler across threads), not enumerated",
         ],
         "lanes": [
